@@ -1093,6 +1093,11 @@ client_retransmit_through_tcp(struct evdns_request *handle)
 	request_finished(req, &REQ_HEAD(req->base, req->trans_id), 0);
 	handle->current_req = newreq;
 	newreq->handle = handle;
+	/* request_finished() promotes waiting requests, and each of them
+	 * picks a transaction id without knowing the one the clone, which
+	 * is in no list yet, already carries. */
+	if (newreq->ns && request_find_from_trans_id(base, newreq->trans_id))
+		request_trans_id_set(newreq, transaction_id_pick(base));
 	request_submit(newreq);
 	/* The clone was made while the old request still counted as in
 	 * flight, so at the limit it went to the waiting queue after
@@ -4167,8 +4172,10 @@ submit_next:
 	request_finished(req, &REQ_HEAD(req->base, req->trans_id), 0);
 	handle->current_req = newreq;
 	newreq->handle = handle;
-	request_submit(newreq);
 	/* see client_retransmit_through_tcp() */
+	if (newreq->ns && request_find_from_trans_id(base, newreq->trans_id))
+		request_trans_id_set(newreq, transaction_id_pick(base));
+	request_submit(newreq);
 	evdns_requests_pump_waiting_queue(base);
 	return 0;
 }
